@@ -161,6 +161,15 @@ def r01_1(ctx: Ctx, rep: Report) -> Dict[str, List[str]]:
                         items_name = it.args[1].id
                         for i, k in enumerate(kv):
                             data_keys[k] = ast.Subscript(value=ast.Name(id=items_name, ctx=ast.Load()), slice=ast.Constant(value=i), ctx=ast.Load())
+            # {key: <items>[idx] for idx, key in enumerate((<keys>))}: key i is group i
+            if isinstance(n, ast.DictComp) and len(n.generators) == 1 and not n.generators[0].ifs and isinstance(n.generators[0].target, ast.Tuple) and len(n.generators[0].target.elts) == 2 and src(n.key) == src(n.generators[0].target.elts[1]):
+                it = n.generators[0].iter
+                v_ = n.value
+                if isinstance(it, ast.Call) and src(it.func) == "enumerate" and len(it.args) == 1 and not it.keywords and isinstance(v_, ast.Subscript) and isinstance(v_.value, ast.Name) and src(v_.slice) == src(n.generators[0].target.elts[0]):
+                    kv = ctx.folder.fold(it.args[0], f.module)
+                    if isinstance(kv, (tuple, list)) and all(isinstance(x, str) for x in kv):
+                        for i, k in enumerate(kv):
+                            data_keys[k] = ast.Subscript(value=ast.Name(id=v_.value.id, ctx=ast.Load()), slice=ast.Constant(value=i), ctx=ast.Load())
         named_index: Dict[str, int] = {}
         match_name = None
         if items_name is None:
